@@ -22,8 +22,8 @@ CHECKS = {
         "design_ref": "DESIGN.md section 8 / C02",
     },
     "C03": {
-        "technique": "Lean 4 proof (every listed match is a Derives tree whose leaves tile the source slice) + exact comparison of ordered match lists with trees + independent derivation checker on the code's own trees",
-        "text": "Theorems: every match of the model is an RFC 5234 derivation tree rooted at the rule name whose leaves tile source[start:end]; tied to the code by exact equality of the ordered match lists (with trees) and by checking the real code's trees with an independent derivation checker.",
+        "technique": "Lean 4 proof (every listed match is a Derives tree whose leaves tile the source slice) + VERIFIED derivation checker (checkTree, proved sound: C03.checked_tree_is_faithful_derivation) run in the compiled driver on every tree the real code lists for the sampled requests + exact comparison of ordered match lists with trees + independent Python derivation checker as adjudicator",
+        "text": "Theorems: every match of the model is an RFC 5234 derivation tree rooted at the rule name whose leaves tile source[start:end]; tied to the code by exact equality of the ordered match lists (with trees), by running the code's own trees through a Lean derivation checker that is proved sound w.r.t. the derivation relation, and by an independent Python derivation checker.",
         "design_ref": "DESIGN.md section 8 / C03",
     },
     "C07": {
@@ -42,7 +42,7 @@ CHECKS = {
         "design_ref": "DESIGN.md section 8 / C10",
     },
     "C12": {
-        "technique": "Lean 4 proof: termination with an explicit recursion-depth bound for every grammar with a well-formedness certificate (C12.terminates, incl. nullable elements under *), GrammarError only from undefined rules, and - over the model of loading (reader's regenerated table + visitors + registry) - a text that is not a derivable rule / rulelist gets ParseError and leaves the registry unchanged (C12.create_invalid_defines_nothing, load_invalid_defines_nothing) + differential on arbitrary Unicode incl. undefined rules; corrupted rule texts vs the reader model with registry snapshots; work-growth probe with diagnosis",
+        "technique": "Lean 4 proof: termination with an explicit recursion-depth bound for every grammar with a well-formedness certificate (C12.terminates, incl. nullable elements under *), GrammarError only from undefined rules, and - over the model of loading (reader's regenerated table + visitors + registry) - a text that is not a derivable rule / rulelist gets ParseError and leaves the registry unchanged (C12.create_invalid_defines_nothing, load_invalid_defines_nothing); a rule lists at most len - start + 1 matches (C12.rule_lists_at_most_span_plus_one) + differential on arbitrary Unicode incl. undefined rules; corrupted rule texts vs the reader model with registry snapshots; work-growth probe with diagnosis",
         "text": "Termination and outcome classes are theorems about the model; tie: outcome classes on generated grammars/inputs (any other exception class is a failing input by construction), load atomicity on corrupted texts. The polynomial work bound is NOT a theorem and is false of the code (open known finding F14, re-confirmed on every run).",
         "design_ref": "DESIGN.md section 8 / C12",
     },
@@ -92,8 +92,8 @@ CHECKS = {
         "design_ref": "DESIGN.md section 8 / C08",
     },
     "C09": {
-        "technique": "Lean 4 proof over tables REGENERATED from /repo on every run: (a) all 826 compiled bundled rule objects are closed, free of left recursion (verified certificate checker) so the engine terminates and is sound on every one; (b) the compiled table is rule for rule language-equal to the independent reading of every module's ABNF text (harness reader abnf_ref.py + declared imports + documented first-match choices) - verified inclusion checker, both directions, kernel-evaluated; (c) engine exactness w.r.t. the text for the 747 rules reaching no first-match flag + differential of all compiled rules against the model run on the reference reading",
-        "text": "C09.compiled_equiv_text: every compiled bundled rule matches exactly the spans the module's own text denotes (as read by a reader written independently of the library); C09.bundled_engine_exact_wrt_text: for rules reaching no first-match flag the engine's listed ends are exactly those; C09.bundled_rule_total_and_sound for all rules; flags_as_documented. Trusted: the independent reader and the pairing by class/name in harness/extract.py. Tie of the model engine to the Python engine and the flagged rules: differential on derived, mutated and boundary strings.",
+        "technique": "Lean 4 proof over tables REGENERATED from /repo on every run: (a) all 826 compiled bundled rule objects are closed, free of left recursion (verified certificate checker) so the engine terminates and is sound on every one; (b) the compiled table is rule for rule language-equal to the independent reading of every module's ABNF text (harness reader abnf_ref.py + declared imports + documented first-match choices) - verified inclusion checker, both directions, kernel-evaluated; (c) engine exactness w.r.t. the text for the 747 rules reaching no first-match flag; (d) every rule accepts at least one string (verified productivity checker prodWalk on a harness-computed order) + differential of all compiled rules against the model run on the reference reading",
+        "text": "C09.compiled_equiv_text: every compiled bundled rule matches exactly the spans the module's own text denotes (as read by a reader written independently of the library); C09.bundled_engine_exact_wrt_text: for rules reaching no first-match flag the engine's listed ends are exactly those; C09.bundled_rule_total_and_sound for all rules; flags_as_documented; C09.bundled_rule_accepts_some_string (RFC reading of the compiled definition; engine level for the rules reaching no flag). Trusted: the independent reader and the pairing by class/name in harness/extract.py. Tie of the model engine to the Python engine and the flagged rules: differential on derived, mutated and boundary strings.",
         "design_ref": "DESIGN.md section 8 / C09",
     },
     "C11": {
